@@ -242,7 +242,15 @@ def order(ctx, rr):
     # can_follow_path compares path prefixes with >=
     cfp = P.unit('LRUTrie.webentity_inorder_iter.<locals>.can_follow_path')
     rets = [x.value for x in P.own(cfp, ast.Return) if x.value is not None]
-    cmp_ok = any(isinstance(v, ast.Compare) and isinstance(v.ops[0], ast.GtE) for v in rets)
+    sliced = {a.targets[0].id for a in P.own(cfp, ast.Assign) if isinstance(a.value, ast.Subscript) and isinstance(a.targets[0], ast.Name)}
+    cmp_ok = False
+    for v in rets:
+        if isinstance(v, ast.Compare) and len(v.ops) == 1:
+            l, r_, op = v.left, v.comparators[0], type(v.ops[0])
+            if isinstance(r_, ast.Name) and r_.id in sliced and op is ast.GtE:
+                cmp_ok = True
+            if isinstance(l, ast.Name) and l.id in sliced and op is ast.LtE:
+                cmp_ok = True
     rr.ob(ctx.where(cfp), 'path pruning keeps a subtree iff its path is >= the same-length prefix of the resume path', ok=cmp_ok)
     if not cmp_ok:
         rr.fail(ctx.finding('R-ORDER', cfp, cfp.node, 'path pruning no longer keeps subtrees whose path is >= the prefix of the resume path', stmt='can_follow_path'))
@@ -845,9 +853,8 @@ def topk(ctx, rr):
     ok = False
     if trim:
         facts = gf.facts_at(trim[0]) or set()
-        ok = any(f[0] == 'T' and f[1].replace(' ', '') == 'len(%s)>pages_count' % heap for f in facts) or \
-            any(f[0] == 'F' and f[1].replace(' ', '') == 'len(%s)<=pages_count' % heap for f in facts)
-        ok = ok and ast.unparse(trim[0].args[0]) == heap
+        from ..guards import holds_cmp
+        ok = holds_cmp(facts, 'len(%s)' % heap, '>', 'pages_count') and ast.unparse(trim[0].args[0]) == heap
         st_push, st_trim = P.stmt_of(push), P.parent.get(id(P.stmt_of(trim[0])))
         body = getattr(P.parent.get(id(st_push)), 'body', [])
         ok = ok and st_push in body and st_trim in body and body.index(st_trim) == body.index(st_push) + 1
